@@ -79,7 +79,7 @@ def cmd_import(a):
             continue
         meta = json.load(open(os.path.join(kd, "meta.json")))
         prop = meta.get("property") or a.prop
-        sid = "%s-%s-%s" % (prop, k, slug(meta.get("title", "x")))
+        sid = "%s-%s%s-%s" % (prop, a.round, k, slug(meta.get("title", "x")))
         print("==", sid)
         d = scratch(os.path.join(kd, "patch.diff"))
         d0 = scratch(None)
@@ -158,6 +158,7 @@ def main():
     i.add_argument("--checks")
     i.add_argument("--prop")
     i.add_argument("--tier", default="quick")
+    i.add_argument("--round", default="")
     r = sub.add_parser("run")
     r.add_argument("--id")
     r.add_argument("--checks")
